@@ -122,8 +122,10 @@ fn main() {
     let res = driver::run_jobs(&cfg, jobs);
     let rep = res.report;
     let mut missing: Vec<String> = Vec::new();
+    let mut required_n = 0usize;
     if !replaying {
         for c in (def.required)(&plan) {
+            required_n += 1;
             if !rep.covered.contains(&c) {
                 missing.push(c);
             }
@@ -147,6 +149,8 @@ fn main() {
         "notes": rep.notes,
         "entries": rep.entries,
         "covered": rep.covered.len(),
+        "required_classes": required_n,
+        "covered_sample": rep.covered.iter().take(40).collect::<Vec<_>>(),
         "missing_coverage": missing,
         "digest": format!("{:016x}", rep.digest),
         "rule": def.rule,
